@@ -131,7 +131,7 @@ class FileSet:
         assert self.spf % scale == 0
         return {"kind": self.kind, "real": self.real, "lsb": self.lsb, "spf": self.spf // scale, "fpf": self.fpf,
                 "nfiles": self.nfiles, "A": self.A, "B": self.B, "t0": 0, "per": 2, "mask": self.mask,
-                "cjtop": self.enc.top}
+                "cjtop": self.enc.top, "blk": 0, "ceil": False}
 
     def open(self):
         return baseband.open(self.name, "rs", **self.bb_kwargs)
@@ -305,6 +305,25 @@ def write_all(d):
         fs[key] = FileSet(key, "stokes", False, not usb, spf, 1, nf, 4, 4, "int8", "ramp", names,
                           {"format": "dada", "squeeze": False},
                           lambda names=names: pbr.DADAStokesReader(names), raw=data, md=256, cplx=False)
+    # real-sampled DADA (npol 1, nchan 4) with an ODD total number of raw samples: 15 x 5 = 75 -> 37 samples (ramp), and
+    # 4001 x 17 = 68017 -> 34008 samples of fixed pseudo-random content, long enough for single reads of > 2**15 samples
+    for key, spf, nf in (("realodd", 15, 5), ("reallong", 4001, 17)):
+        L = spf * nf
+        if key == "realodd":
+            data = _ramp("int8", L, 1, 4, False)
+        else:
+            data = np.random.default_rng(20260928).integers(-100, 101, size=(L, 1, 4)).astype(np.float32)
+        hdr = dada.DADAHeader.fromvalues(time=T0, offset=0 * u.s, npol=1, nchan=4, bps=8, complex_data=False,
+                                         sample_rate=2 * u.MHz, samples_per_frame=spf, sideband=True)
+        hdr["FREQ"] = 1400.0
+        with dada.open(os.path.join(d, key + "_{frame_nr:02d}.dada"), "ws", header0=hdr, squeeze=False) as fw:
+            fw.write(data)
+        names = sorted(glob.glob(os.path.join(d, key + "_*.dada")))
+        for sfx, lsb in (("", False), ("_lsb", True)):
+            fs[key + sfx] = FileSet(key + sfx, "plain", True, lsb, spf, 1, nf, 1, 4, "int8", "ramp" if key == "realodd" else "direct", names,
+                                    {"format": "dada", "squeeze": False},
+                                    lambda names=names, lsb=lsb: pbr.BasebandReader(names, format="dada", squeeze=False, lower_sideband=lsb),
+                                    raw=data, md=256, cplx=False)
     # readers whose metadata was assigned after construction
     for k in ("vdifr", "guppil", "stokesl", "memory", "dadaleap"):
         v = fs[k].by_assignment(3 if k != "dadaleap" else 2, 7 if k != "dadaleap" else 3)
